@@ -13,7 +13,7 @@ ASSUMPTIONS = ["FS.listdir returns the names of the direct entries; FS.isdir is 
 
 def c1(ctx):
     fwd.fwd_kwargs(ctx, floor=8)
-    fwd.fwd_options(ctx, ["filesystem", "ignore_duplicate", "strict"], floor=14)
+    fwd.fwd_options(ctx, ["filesystem", "ignore_duplicate", "strict"], floor=13, skip_callees=["simfile:_detect_ssc"])
 
 
 def c2(ctx):
